@@ -215,6 +215,31 @@ pub fn explain_ansi(line: &str, colorful: bool) -> String {
         .collect()
 }
 
+// Verification hooks (compiled only with --cfg dandavison_delta_verif): read-only access to
+// the private element iterator and to `truncate_str_impl`.
+#[cfg(dandavison_delta_verif)]
+pub fn verif_elements(s: &str) -> Vec<(char, usize, usize, Option<ansi_term::Style>)> {
+    AnsiElementIterator::new(s)
+        .map(|el| match el {
+            Element::Sgr(style, i, j) => ('S', i, j, Some(style)),
+            Element::Csi(i, j) => ('C', i, j, None),
+            Element::Esc(i, j) => ('E', i, j, None),
+            Element::Osc(i, j) => ('O', i, j, None),
+            Element::Text(i, j) => ('T', i, j, None),
+        })
+        .collect()
+}
+
+#[cfg(dandavison_delta_verif)]
+pub fn verif_truncate_str_impl(
+    s: &str,
+    display_width: usize,
+    tail: &str,
+    fill2w: Option<char>,
+) -> String {
+    truncate_str_impl(s, display_width, tail, fill2w).to_string()
+}
+
 #[cfg(test)]
 mod tests {
     use unicode_width::UnicodeWidthStr;
